@@ -181,6 +181,7 @@ type drv struct {
 	cur     string // the broadcast task the driver last added and has not removed (barrier bookkeeping only)
 	srcName map[uuid.UUID]string
 	mark    int
+	autos   map[string]*autoLeaf
 }
 
 func freeAddr() string {
@@ -315,6 +316,13 @@ func (d *drv) disconnect(name string) string {
 	if r == nil {
 		return "ok"
 	}
+	for c, a := range d.autos {
+		if a.live && d.home[c] == name {
+			if d.stopAuto(c) != "ok" {
+				return "collector-stop-timeout"
+			}
+		}
+	}
 	before := d.pool.Count()
 	if !within(3*time.Second, r.cancel) {
 		return "timeout"
@@ -359,6 +367,13 @@ func (d *drv) settle() {
 			}
 			l.mu.Unlock()
 		}
+		for _, a := range d.autos {
+			a.sk.mu.Lock()
+			for _, c := range a.sk.got {
+				n += c
+			}
+			a.sk.mu.Unlock()
+		}
 		if n == last {
 			stable++
 		} else {
@@ -377,6 +392,13 @@ func (d *drv) gotMap() map[string]interface{} {
 	sort.Strings(names)
 	for _, n := range names {
 		m := map[string]interface{}{}
+		if a := d.autos[n]; a != nil {
+			a.sk.mu.Lock()
+			for t, c := range a.sk.got {
+				m[t] = c
+			}
+			a.sk.mu.Unlock()
+		}
 		if l := d.leaves[n]; l != nil {
 			l.mu.Lock()
 			for id, c := range l.got {
@@ -413,8 +435,17 @@ func (d *drv) addTask(t, kind, tg string) string {
 		via = append(via, r)
 	} else if _, isLeaf := d.home[tg]; !isLeaf {
 		target = nameUUID("relay-down", tg, d.w.seed) // a relay that is not connected has no collector id at the superior
+	} else if a := d.autos[tg]; d.isAuto(tg) && a != nil && a.lc != nil {
+		target = a.lc.ID()
 	} else {
 		target = nameUUID("leaf", tg, d.w.seed)
+	}
+	answers := 0
+	if kind == "target" {
+		answers = d.liveAutosUnder(tg)
+		if d.isAuto(tg) && d.home[tg] != "S" {
+			answers = 0 // a leaf behind a relay is not known at the superior
+		}
 	}
 	var ch chan *fractal.CollectorMsg
 	if !within(3*time.Second, func() { ch = d.ls.AddTask(d.ctx, target, msg) }) {
@@ -425,6 +456,10 @@ func (d *drv) addTask(t, kind, tg string) string {
 		if !waitFor(3*time.Second, func() bool { return r.probe.count(msg.ID()) > 0 }) {
 			return "relay-" + r.name + "-never-got-it"
 		}
+	}
+	if answers > 0 {
+		// the LocalCollectors answer on their own goroutines: wait for their reports (a missing one shows in Take)
+		waitFor(2*time.Second, func() bool { return len(ch) >= answers })
 	}
 	return "ok"
 }
@@ -489,6 +524,14 @@ func (d *drv) take(t string, ev vh.Event) {
 			return
 		}
 		got := enc(m.Msg)
+		if d.kinds[t] == "target" {
+			for c := range autoSigIdx {
+				want := &protocol.ReportSignature{TaskID: tid, SpaceID: "space-" + t, Hash: hashOf("sig" + t), Signature: d.w.k.g2[autoSigIdx[c]]}
+				if bytes.Equal(got, enc(want)) {
+					ev["p"] = c
+				}
+			}
+		}
 		for _, p := range allPayloads {
 			if bytes.Equal(got, enc(d.w.reportMsg(tid, d.kinds[t], p))) {
 				ev["p"] = p
@@ -504,7 +547,7 @@ var allPayloads = []string{"p1", "p2", "p3", "p4", "p5", "p6"}
 func run(sc vh.Scenario, dir string, rec *vh.Rec) {
 	w := &world{seed: sc.Seed, k: theKeys}
 	d := &drv{w: w, home: map[string]string{}, leaves: map[string]*leaf{}, relays: map[string]*relay{}, tasks: map[string]chan *fractal.CollectorMsg{},
-		kinds: map[string]string{}, msgs: map[uuid.UUID]protocol.Message{}, tname: map[uuid.UUID]string{}, srcName: map[uuid.UUID]string{}}
+		kinds: map[string]string{}, msgs: map[uuid.UUID]protocol.Message{}, tname: map[uuid.UUID]string{}, srcName: map[uuid.UUID]string{}, autos: map[string]*autoLeaf{}}
 	if h, ok := sc.Opt["home"].(map[string]interface{}); ok {
 		for k, v := range h {
 			d.home[k] = v.(string)
@@ -531,6 +574,10 @@ func run(sc vh.Scenario, dir string, rec *vh.Rec) {
 		rec.Begin(ev)
 		switch st.A() {
 		case "Subscribe":
+			if d.isAuto(st.Str("c")) {
+				ev["res"] = d.startAuto(st.Str("c"))
+				break
+			}
 			sup, _ := d.superiorOf(st.Str("c"))
 			if sup == nil {
 				ev["res"] = "skip"
@@ -542,6 +589,10 @@ func run(sc vh.Scenario, dir string, rec *vh.Rec) {
 				ev["res"] = "timeout"
 			}
 		case "Unsubscribe":
+			if d.isAuto(st.Str("c")) {
+				ev["res"] = d.stopAuto(st.Str("c"))
+				break
+			}
 			sup, _ := d.superiorOf(st.Str("c"))
 			if sup == nil {
 				ev["res"] = "skip"
@@ -594,6 +645,11 @@ func run(sc vh.Scenario, dir string, rec *vh.Rec) {
 	for _, n := range names {
 		if r := d.disconnect(n); r != "ok" {
 			res = "relay-stop-" + r
+		}
+	}
+	for c := range d.autos {
+		if r := d.stopAuto(c); r != "ok" {
+			res = "collector-stop-" + r
 		}
 	}
 	if !within(3*time.Second, d.stopPl) {
